@@ -46,7 +46,7 @@ def rid_info(tabs):
     return info
 
 
-def analyze(log, tabs, folds, model_uids=None, cap=None, check_model_count=True):
+def analyze(log, tabs, folds, model_uids=None, cap=None, check_model_count=True, complete=True):
     """Return (violations, facts). violations: list of (kind, detail)."""
     bad = []
     info = rid_info(tabs)
@@ -71,7 +71,8 @@ def analyze(log, tabs, folds, model_uids=None, cap=None, check_model_count=True)
     facts["scored_rows"] = len(scored_by)
     if final:
         # partition: every row scored exactly once
-        missing = [r for r in info if r not in scored_by]
+        # a run that stopped with an explicit error may have predicted only some files/chunks
+        missing = [r for r in info if r not in scored_by] if complete else []
         multi = [r for r, u in scored_by.items() if len(u) != 1]
         unknown = [r for r in scored_by if r not in info]
         if missing:
@@ -88,7 +89,7 @@ def analyze(log, tabs, folds, model_uids=None, cap=None, check_model_count=True)
                 per_file_uids.setdefault(info[r][0], set()).add(us[0])
             for fi, us in per_file_uids.items():
                 n_rows = sum(1 for r in info if info[r][0] == fi)
-                if len(us) != folds and n_rows >= folds:
+                if len(us) != folds and n_rows >= folds and complete:
                     bad.append(("fold_count", {"file": fi, "folds_with_rows": len(us), "folds": folds}))
             if any(u not in fit_rids for u in scoring_uids):
                 bad.append(("scored_by_unfitted_model", {"uids": [u for u in scoring_uids if u not in fit_rids]}))
